@@ -66,6 +66,16 @@ class SourceSet:
             raise AnchorMissing(f"file {r} not found")
         return self.files[r]
 
+    def view(self, short: str, force: tuple[str, ...]) -> "SourceSet":
+        """The same sources, with module `short` read in the normal form in which the named helpers are written out in
+        their callers (see normalise.inline_helpers(force=...))."""
+        key = ("view", short, tuple(sorted(force)))
+        if key not in self._cache:
+            v = SourceSet(self.files, self.root)
+            v._force = {self.rel(short): frozenset(force)}
+            self._cache[key] = v
+        return self._cache[key]
+
     def tree(self, short: str) -> ast.Module:
         r = self.rel(short)
         if r not in self._ast:
@@ -75,8 +85,22 @@ class SourceSet:
                 raise AnchorMissing(f"{r} does not parse: {e}") from e
             if not os.environ.get("VERIF_NO_INLINE"):
                 from .normalise import (builder_loops, ctor_kwargs, extend_generators, format_calls, group_aliases, inline_helpers,
-                                        plain_assignments)
-                for step in (plain_assignments, inline_helpers, group_aliases, ctor_kwargs, extend_generators, builder_loops, format_calls):
+                                        plain_assignments, search_helpers, loop_guards, suppress_blocks)
+                forced = getattr(self, "_force", {}).get(r)
+
+                def forced_inline(t_):
+                    """write the named methods ("Class.method") out in their callers inside that class"""
+                    import copy
+                    t_ = copy.deepcopy(t_)
+                    for q in sorted(forced or ()):
+                        cn, mn = q.split(".")
+                        for i, n in enumerate(t_.body):
+                            if isinstance(n, ast.ClassDef) and n.name == cn:
+                                mini = inline_helpers(ast.Module(body=[n], type_ignores=[]), force=frozenset({mn}))
+                                t_.body[i] = mini.body[0]
+                    return t_
+                steps = (plain_assignments, suppress_blocks, loop_guards, search_helpers, inline_helpers) + ((forced_inline,) if forced else ()) + (group_aliases, ctor_kwargs, extend_generators, builder_loops, format_calls)
+                for step in steps:
                     try:
                         t2 = step(t)
                         compile(ast.fix_missing_locations(t2), r, "exec")      # a normal form that is not valid Python is discarded
